@@ -7,7 +7,7 @@ use vcore::gen::{self, StreamCfg};
 use vcore::rt::{self, digest, esc, Acc, Args, Report};
 use vcore::vt::{self, St};
 
-const RULE: &str = "Cases are (input, partition into consecutive chunks). Inputs: every byte string of the stated lengths over the sub-alphabet and over the character/introducer alphabet, with ALL 2^(n-1) partitions; short grammar streams (n <= 12, thorough 16) with all partitions; long grammar streams with generated partitions (sizes 1..k, all-single-byte, single chunk, cuts at interior positions of sequences). APIs: StripBytes, StripStream::write_all / write per chunk, WinconBytes (any cut); StripStr (cuts at character boundaries only). Oracle: chunked result == the same code on the whole input (strippers: bytes; extractor: per-character (style, char)). Non-trivial = at least one cut where the reference parser is not in the ground state (inside an escape sequence or inside a multi-byte character), distinct by (input, cuts).";
+const RULE: &str = "(Also: chunks written as literal format strings, write!(stream, <literal>), all pairs and triples of 35 literals.) Cases are (input, partition into consecutive chunks). Inputs: every byte string of the stated lengths over the sub-alphabet and over the character/introducer alphabet, with ALL 2^(n-1) partitions; short grammar streams (n <= 12, thorough 16) with all partitions; long grammar streams with generated partitions (sizes 1..k, all-single-byte, single chunk, cuts at interior positions of sequences). APIs: StripBytes, StripStream::write_all / write per chunk, WinconBytes (any cut); StripStr (cuts at character boundaries only). Oracle: chunked result == the same code on the whole input (strippers: bytes; extractor: per-character (style, char)). Non-trivial = at least one cut where the reference parser is not in the ground state (inside an escape sequence or inside a multi-byte character), distinct by (input, cuts).";
 
 /// offsets i (0<i<len) where the reference machine is not in ground after input[..i]
 fn nonground_mask(input: &[u8]) -> (u64, u64) {
@@ -63,6 +63,17 @@ fn cuts_from_fracs(len: usize, mode: u8, fracs: &[u16], input: &[u8]) -> Vec<usi
         0 => vec![],
         1 => (1..len).collect(),
         2 => gen::interior_cuts(input),
+        6 => {
+            // for huge inputs: a few random cuts, the 16-bit boundaries, and some cuts inside sequences
+            let mut v: Vec<usize> = fracs.iter().map(|f| 1 + ((*f as usize * (len - 1)) >> 16)).collect();
+            v.extend([65_535usize, 65_536, 65_537, 131_072].into_iter().filter(|c| *c < len));
+            let inner = gen::interior_cuts(input);
+            let step = (inner.len() / 8).max(1);
+            v.extend(inner.into_iter().step_by(step));
+            v.sort();
+            v.dedup();
+            v
+        }
         _ => {
             let mut v: Vec<usize> = fracs
                 .iter()
@@ -122,6 +133,38 @@ fn enum_partitions(
         }
     }
     rep.add(name, true, bound, all);
+}
+
+/// chunks = literals written with `write!(stream, <literal>)`
+fn literal_chunks(idx: &[usize], acc: &mut Acc) -> Result<(), String> {
+    use std::io::Write;
+    let whole: Vec<u8> = idx.iter().flat_map(|i| vcore::lits::LITS[*i].as_bytes().to_vec()).collect();
+    let want = checks::real::strip_bytes_vec(&whole);
+    let mut a = anstream::StripStream::new(Vec::new());
+    let mut b = anstream::AutoStream::never(Vec::new());
+    for i in idx {
+        vcore::lits::write_lit(&mut a, *i, false).map_err(|e| format!("write! failed: {e}"))?;
+        vcore::lits::write_lit(&mut b, *i, false).map_err(|e| format!("write! failed: {e}"))?;
+    }
+    let show = || idx.iter().map(|i| esc(vcore::lits::LITS[*i].as_bytes())).collect::<Vec<_>>().join(" | ");
+    let (a, b) = (a.into_inner(), b.into_inner());
+    if a != want {
+        return Err(format!("StripStream fed the literal chunks [{}] with write! holds {} but one-shot gives {}", show(), esc(&a), esc(&want)));
+    }
+    if b != want {
+        return Err(format!("AutoStream::never fed the literal chunks [{}] with write! holds {} but one-shot gives {}", show(), esc(&b), esc(&want)));
+    }
+    // non-trivial: a chunk boundary inside a sequence or a character
+    let mut m = vt::Machine::new();
+    let mut inside = false;
+    for i in &idx[..idx.len() - 1] {
+        m.feed_all(vcore::lits::LITS[*i].as_bytes());
+        inside |= m.st != St::Ground;
+    }
+    if inside {
+        acc.nontrivial_distinct();
+    }
+    Ok(())
 }
 
 fn run(args: &Args, rep: &mut Report) {
@@ -219,6 +262,47 @@ fn run(args: &Args, rep: &mut Report) {
             auxj,
         ),
     );
+    rep.add(
+        "huge-streams-generated-partitions",
+        false,
+        "G-STREAM (0..8 items) with one printable run of 64..200 KiB x generated partitions (single chunk; 1..8 random cuts; random cuts + the 16-bit boundaries + cuts inside sequences)",
+        vcore::drive::huge_par(
+            "huge-streams-generated-partitions",
+            args.seed,
+            tier.pick(100, 5_000),
+            StreamCfg::ALL,
+            || (prop_oneof![1 => Just(0u8), 1 => Just(5u8), 3 => Just(6u8)], proptest::collection::vec(any::<u16>(), 1..8)),
+            body,
+            auxj,
+        ),
+    );
+    // chunks handed over as formatted writes whose format string is a bare literal
+    let nl = vcore::lits::LITS.len();
+    let accs = rt::par(rt::workers(), |w| {
+        let mut acc = Acc::new();
+        let n = rt::workers();
+        for i in (0..nl).filter(|i| i % n == w) {
+            for j in 0..nl {
+                for k in 0..=nl {
+                    // k == nl: only two chunks
+                    let idx: Vec<usize> = if k == nl { vec![i, j] } else { vec![i, j, k] };
+                    acc.eval();
+                    if let Err(m) = rt::guarded(|| literal_chunks(&idx, &mut acc)) {
+                        acc.fail("literal-chunks", json!({"literals": idx}), m);
+                        return acc;
+                    }
+                }
+            }
+        }
+        acc.sample(|| json!({"chunks": ["\\x1b[3", "1mred"], "via": "write!(stream, <literal>)"}));
+        acc
+    });
+    rep.add(
+        "literal-chunks",
+        true,
+        &format!("all pairs and triples of the {nl} escape-rich literals of vcore::lits, each chunk written with write!(stream, <literal>) to StripStream and AutoStream::never, against one-shot stripping of the concatenation"),
+        accs,
+    );
     if args.tier == vcore::rt::Tier::Thorough {
         checks::fuzzrun::campaign(rep, args, "chunk", 300000, checks::oracle::fuzz_chunk);
     }
@@ -227,6 +311,10 @@ fn run(args: &Args, rep: &mut Report) {
 fn replay(_sub: &str, case: &Value) -> Result<(), String> {
     if _sub.starts_with("libfuzzer-") {
         return checks::oracle::fuzz_chunk(&vcore::drive::case_bytes(case));
+    }
+    if _sub == "literal-chunks" {
+        let idx: Vec<usize> = case["literals"].as_array().ok_or("bad case")?.iter().filter_map(|v| v.as_u64()).map(|v| v as usize).collect();
+        return literal_chunks(&idx, &mut Acc::new());
     }
     let bytes = case_bytes(case);
     if let Some(cuts) = case.get("cuts").and_then(|c| c.as_array()) {
